@@ -183,14 +183,20 @@ def string_case(draw):
 def float_case(draw):
     ip = draw(st.text(alphabet="0123456789", min_size=1, max_size=12))
     fp = draw(st.one_of(st.none(), st.text(alphabet="0123456789", min_size=1, max_size=14)))
-    form = draw(st.sampled_from(["dot", "dot", "exp", "dotexp", "leaddot"])) if fp is not None else "exp"
+    form = draw(st.sampled_from(["dot", "dot", "exp", "dotexp", "leaddot", "smallfrac", "smallfrac"])) if fp is not None else "exp"
     sfx = draw(st.sampled_from(["", "", "f", "F", "l", "L"]))
     lim = {"f": 30, "": 290, "l": 4000}[sfx.lower()]
     e = draw(st.integers(-lim, lim))
     echar = draw(st.sampled_from(["e", "E"]))
     esign = "-" if e < 0 else draw(st.sampled_from(["", "+"]))
     exp = "%s%s%d" % (echar, esign, abs(e))
-    if form == "dot":
+    if form == "smallfrac":
+        # positional notation with many decimal places: zeros after the point, then significant digits (optionally scaled back up by an exponent)
+        zeros = draw(st.integers(0, 30))
+        text = draw(st.sampled_from(["0", "0", "", "3"])) + "." + "0" * zeros + fp
+        if draw(st.booleans()):
+            text += "e+%d" % draw(st.integers(0, zeros + 2))
+    elif form == "dot":
         text = ip + "." + fp
     elif form == "exp":
         text = ip + exp
